@@ -5,7 +5,7 @@
    This is why C16_stable carries the hypothesis [reimportable] (angles away from the wrap-around).
    Witness at the executable (Q) instance (pi is a 40-digit rational there). *)
 From Coq Require Import String List Bool ZArith QArith.
-From SpdVerif Require Import Base.NumOps Spec.ConfigSpec Gen.ConfigTables Model.ConfigTypes Model.Config Model.NumInst Gen.ConfigConv.
+From SpdVerif Require Import Base.CfgNumOps Spec.ConfigSpec Gen.ConfigTables Model.ConfigTypes Model.Config Model.NumInst Gen.ConfigConv.
 Import ListNotations.
 Local Open Scope Q_scope.
 
